@@ -5,8 +5,12 @@ import (
 	"context"
 	"errors"
 	"fmt"
+	"io"
+	"net"
+	"os"
 	"strconv"
 	"strings"
+	"verif/engine/memnet"
 
 	"github.com/jeroenrinzema/psql-wire/codes"
 	psqlerr "github.com/jeroenrinzema/psql-wire/errors"
@@ -280,6 +284,108 @@ func c17Enumerate(tier string, emit explore.Emit) {
 						}})
 				}
 			}
+		}
+	}
+	// base errors that are, or wrap, one of the standard library's sentinel errors (a cancelled context, a deadline,
+	// io.EOF ...), decorated by the handler: through ErrorCode and through a live session (statement, parser,
+	// Execute) the handler's outermost decorations arrive, whatever the base error is
+	for bi, base := range []error{context.Canceled, context.DeadlineExceeded, fmt.Errorf("upstream: %w", context.Canceled), fmt.Errorf("upstream: %w", context.DeadlineExceeded),
+		io.EOF, fmt.Errorf("upstream: %w", io.ErrUnexpectedEOF), os.ErrDeadlineExceeded, fmt.Errorf("lookup: %w", net.ErrClosed), errors.New("plain")} {
+		for _, code := range []string{"", "40001", "57P01", "57014"} {
+			for _, sev := range []string{"", "FATAL"} {
+				bi, base, code, sev := bi, base, code, sev
+				emit(explore.Case{Family: "session", Size: 4,
+					Desc: func() any {
+						return map[string]any{"base_error": base.Error(), "code_decoration": code, "severity_decoration": sev, "via": "ErrorCode, simple query, parser, Execute"}
+					},
+					Run: func() explore.Result {
+						var res explore.Result
+						res.Outcome = "decorated"
+						res.Key = fmt.Sprint("std-base", bi, code, sev)
+						err := base
+						want := map[byte]string{'S': "ERROR", 'C': string(codes.Uncategorized), 'M': base.Error()}
+						if code != "" {
+							err = psqlerr.WithCode(err, codes.Code(code))
+							want['C'] = code
+						}
+						if sev != "" {
+							err = psqlerr.WithSeverity(err, psqlerr.Severity(sev))
+							want['S'] = sev
+						}
+						var sink bytes.Buffer
+						wire.ErrorCode(buffer.NewWriter(harness.Quiet, &sink), err)
+						c17Check(&res, sink.Bytes(), want)
+						parse := func(ctx context.Context, q string) (wire.PreparedStatements, error) {
+							if q == "parser fails" {
+								return nil, err
+							}
+							return wire.Prepared(wire.NewStatement(func(ctx context.Context, w wire.DataWriter, p []wire.Parameter) error { return err })), nil
+						}
+						one, serr := harness.StartOne(parse)
+						if serr != nil {
+							res.Engine = serr.Error()
+							return res
+						}
+						defer one.Stop()
+						one.Step(pgproto.Startup("user", "u"))
+						for _, q := range []string{"x", "parser fails"} {
+							out, st := one.Step(pgproto.Query(q))
+							if st != memnet.Parked {
+								break // (an error wrapping io.EOF / a closed connection may end the connection: C05 / C06 judge that)
+							}
+							before := len(res.Violations)
+							c17Check(&res, out, want)
+							for i := before; i < len(res.Violations); i++ {
+								res.Violations[i].Detail = "simple query " + strconv.Quote(q) + ": " + res.Violations[i].Detail
+							}
+						}
+						out, st := one.Step(pgproto.Cat(pgproto.Parse("", "x"), pgproto.Bind("", "", nil, nil, nil), pgproto.Execute("", 0), pgproto.Sync()))
+						if ms, perr := pgproto.ParseBackend(out); perr == nil && len(ms) > 2 && st == memnet.Parked {
+							before := len(res.Violations)
+							c17Check(&res, pgproto.Msg('E', ms[2].Body), want)
+							for i := before; i < len(res.Violations); i++ {
+								res.Violations[i].Detail = "extended protocol Execute: " + res.Violations[i].Detail
+							}
+						}
+						return res
+					}})
+			}
+		}
+	}
+	// a hint / detail / constraint text that equals the message (or another field): set is set
+	for _, wraps := range []int{0, 1} {
+		for _, which := range []string{"detail", "hint", "constraint", "all three"} {
+			wraps, which := wraps, which
+			emit(explore.Case{Family: "direct", Size: 3, Desc: func() any {
+				return map[string]any{"field_whose_text_equals_the_message": which, "plain_wrappers_inside": wraps}
+			},
+				Run: func() explore.Result {
+					var res explore.Result
+					res.Outcome = "decorated"
+					res.Key = fmt.Sprint("same-text", which, wraps)
+					err := errors.New("disk full")
+					for i := 0; i < wraps; i++ {
+						err = fmt.Errorf("ctx: %w", err)
+					}
+					msg := err.Error()
+					want := map[byte]string{'S': "ERROR", 'C': string(codes.Uncategorized), 'M': msg}
+					if which == "detail" || which == "all three" {
+						err = psqlerr.WithDetail(err, msg)
+						want['D'] = msg
+					}
+					if which == "hint" || which == "all three" {
+						err = psqlerr.WithHint(err, msg)
+						want['H'] = msg
+					}
+					if which == "constraint" || which == "all three" {
+						err = psqlerr.WithConstraintName(err, msg)
+						want['n'] = msg
+					}
+					var sink bytes.Buffer
+					wire.ErrorCode(buffer.NewWriter(harness.Quiet, &sink), err)
+					c17Check(&res, sink.Bytes(), want)
+					return res
+				}})
 		}
 	}
 	// the library's own decorated errors take the same road: a message larger than the limit is reported with the
